@@ -168,9 +168,14 @@ fn resolve_type(
     }
 
     // Unresolved type is in import path?
-    if let Some(import_path) = imports.iter().find(|import_path| {
-        &type_.name == *import_path || import_path.ends_with(&format!(".{}", type_.name))
-    }) {
+    // Note: when several imports match, take the smallest one (the iteration order of the set is random)
+    if let Some(import_path) = imports
+        .iter()
+        .filter(|import_path| {
+            &type_.name == *import_path || import_path.ends_with(&format!(".{}", type_.name))
+        })
+        .min()
+    {
         // Imported built-in Android type (e.g. import android.os.ParcelFileDescriptor)
         if let Some(android) = ast::AndroidTypeKind::from_qualified_name(import_path) {
             type_.kind = ast::TypeKind::AndroidType(android);
